@@ -717,7 +717,7 @@ func TestC03(t *testing.T) {
 		}
 	}
 	wg.Wait()
-	code := run.Finish("scripted raw peer against one real stack in virtual time (quiescence after every injected segment, so replies are attributed to the segment that caused them). Passive scripts: SYN with PRNG option sets (MSS incl. tiny, WS 0..255, TS, SACK-permitted, NOP, unknown kinds, EOL padding, none) then orders of bad ACK (delta in +-1, +-2, +-2^16, 2^31, ack 0, ack 2^32-1, random), duplicate SYN, other-sequence SYN, early data, in/out-of-window RST, 1.5 s waits, good ACK; normal mode, cookie mode (threshold 0) and genuine pressure (threshold 3 filled by half-open handshakes). Active scripts: Connect with steered ISS (0, 1, 2^31-1, 2^31, 2^32-2, 2^32-1, random), peer answers bad SYN-ACK / bare ACK / RST / RST-ACK then the good SYN-ACK or RST-ACK. Strays: all flag combinations to ports without sockets. Verdicts: Accept/Connect complete only after the exact acknowledgement; bad acknowledgement => exactly one reset with that sequence number (may be dropped in cookie mode); strays => exactly one reset with the RFC 793 fields; a reset is never answered. distinct = distinct (mode, step-kind sequence, option set, ISS class)",
+	code := run.Finish("scripted raw peer against one real stack in virtual time (quiescence after every injected segment, so replies are attributed to the segment that caused them). Passive scripts: SYN with PRNG option sets (MSS incl. tiny, WS 0..255, TS, SACK-permitted, NOP, unknown kinds, EOL padding, none) then orders of bad ACK (delta in +-1, +-2, +-2^16, 2^31, ack 0, ack 2^32-1, random), duplicate SYN, other-sequence SYN, early data, in/out-of-window RST, 1.5 s waits, good ACK; normal mode, cookie mode (threshold 0) and genuine pressure (threshold 3 filled by half-open handshakes). Active scripts: Connect with steered ISS (0, 1, 2^31-1, 2^31, 2^32-2, 2^32-1, random), peer answers bad SYN-ACK / bare ACK / RST / RST-ACK then the good SYN-ACK or RST-ACK. Strays: all flag combinations to ports without sockets. Verdicts: Accept/Connect complete only after the exact acknowledgement; bad acknowledgement => exactly one reset with that sequence number (may be dropped in cookie mode); strays => exactly one reset with the RFC 793 fields; a reset is never answered. distinct = distinct (mode, step-kind sequence, option set, ISS class) Later additions: One wrong ACK in three arrives without the negotiated timestamp option. Handshake segments without the ACK bit (FIN only, no flags, PSH|URG) must not complete a handshake.",
 		[]string{"a bare ACK to a listener with no half-open connection is outside the statement (recorded only)", "expected reset fields computed by the independent codec h/rfc"})
 	os.Exit(code)
 }
